@@ -4,7 +4,7 @@ from __future__ import annotations
 import copy
 from typing import Any, Dict, List
 
-from . import from_tlc, gen_asgi, gen_h1, gen_h2, gen_limits, gen_proto, gen_worker, gen_ws
+from . import from_tlc, gen_asgi, gen_h1, gen_h2, gen_limits, gen_proto, gen_shutdown, gen_worker, gen_ws
 
 COMMON_ASSUMPTIONS = [
     "h11/h2/wsproto/priority libraries behave as documented (their server roles are exercised, not re-verified)",
@@ -91,7 +91,8 @@ def gen_c16(tier, rng):
              gen_h2.gen_flow, gen_h2.gen_release, gen_h2.gen_unusual, gen_h2.gen_h2_faults, gen_ws.gen_c10, gen_ws.gen_c11,
              gen_asgi.gen_c12, from_tlc.gen_h1_from_spec]
     for gen in pools:
-        scripts = [s for s in gen(tier, rng) if "variants" not in s]
+        # (the self-cancel ending exists on asyncio only: not the "same application behaviour")
+        scripts = [s for s in gen(tier, rng) if "variants" not in s and "/cancel@" not in s.get("fam", "")]
         if tier == "quick" and len(scripts) > 45:
             scripts = rng.sample(scripts, 45)
         for sc in scripts:
@@ -117,8 +118,11 @@ def _wdev(dev: str, expect: str) -> Dict[str, Any]:
 
 PROPS["C14"] = {"monitor": "C14", "generators": [gen_worker.gen_c14], "runner": "worker", "design": WORKER_DESIGN,
                 "deviations": [_wdev("DevFailedSwallowed", "NothingServedAfterFailure")]}
-PROPS["C15"] = {"monitor": "C15", "generators": [gen_worker.gen_c15], "runner": "worker", "design": WORKER_DESIGN,
-                "deviations": [_wdev("DevWaitClosed", "BoundedShutdown")]}
+PROPS["C15"] = {"parts": [
+    {"monitor": "C15", "generators": [gen_worker.gen_c15], "runner": "worker", "design": WORKER_DESIGN,
+     "deviations": [_wdev("DevWaitClosed", "BoundedShutdown")], "selftest": "C15"},
+    {"monitor": "C15C", "generators": [gen_shutdown.gen_c15c, gen_h2.gen_h2_faults], "selftest": "C15C"},
+]}
 PROPS["C18"] = {"parts": [
     {"monitor": "C18", "generators": [gen_limits.gen_c18, gen_h1.gen_c06], "selftest": "C18"},
     {"monitor": "C18W", "generators": [gen_worker.gen_c18w], "runner": "worker", "design": WORKER_DESIGN,
